@@ -38,6 +38,8 @@ def configs(tier):
                 if len(cs) > 2 and so == "uf":
                     continue
                 out.append({"classes": cs, "rfunc": rf, "sort": so})
+    # two distinct vertices that compare equal (value equality): neighbours are told apart by identity
+    out.append({"classes": ["DE", "UE"], "rfunc": "uf", "sort": "none", "eqv": True})
     return out
 
 
@@ -76,7 +78,8 @@ else:
 
 
 def scenario(B, p):
-    verts = make_vertices(B, 3, ["Vertex", "NamedVertex", "Vertex"] if p["rfunc"] == "none" else None)
+    verts = make_vertices(B, 3, ["EqVertex", "EqVertex", "Vertex"] if p.get("eqv") else
+                          (["Vertex", "NamedVertex", "Vertex"] if p["rfunc"] == "none" else None))
     links = make_links(B, p["classes"])
     n = len(links)
     symbolic_assoc_state(B, verts, links, n, n, two_ended_wellformed=True)
